@@ -138,40 +138,110 @@ def lump_product(ctx, fm):
             return ev(e.args[0], env)
         return None
 
-    env = {}
+    SPARSE_CTORS = ("csr_array", "csc_array", "coo_array", "csr_matrix", "csc_matrix", "coo_matrix")
 
-    def run_block(stmts):
+    def triplet_ctor(e):
+        """coo_array((data, (rows, cols)) [, shape=...]) possibly followed by format conversions -> (call, has_shape) else None"""
+        while isinstance(e, _a.Call) and isinstance(e.func, _a.Attribute) and e.func.attr in CONV:
+            e = e.func.value
+        if isinstance(e, _a.Call) and src(e.func).split(".")[-1] in SPARSE_CTORS and e.args and isinstance(e.args[0], _a.Tuple) and \
+                len(e.args[0].elts) == 2 and isinstance(e.args[0].elts[1], _a.Tuple):
+            return e, (len(e.args) >= 2 or any(k.arg == "shape" for k in e.keywords))
+        return None
+
+    def linear_paths(stmts, budget=[64]):
+        """straight-line statement sequences of the body, one per combination of branch choices; a path ends at its Return"""
+        paths = [([], [], False)]                      # (statements, branch conditions taken, terminated)
         for st in stmts:
+            nxt = []
+            for seq, conds, done in paths:
+                if done:
+                    nxt.append((seq, conds, done))
+                elif isinstance(st, _a.If):
+                    for branch, tag in ((st.body, src(st.test)), (st.orelse, "not (" + src(st.test) + ")")):
+                        for bseq, bconds, bdone in linear_paths(branch, budget):
+                            nxt.append((seq + bseq, conds + [tag] + bconds, bdone))
+                elif isinstance(st, (_a.For, _a.While, _a.With)):
+                    for bseq, bconds, bdone in linear_paths(st.body, budget):
+                        nxt.append((seq + bseq, conds + bconds, False))
+                elif isinstance(st, _a.Try):
+                    for bseq, bconds, bdone in linear_paths(st.body + st.finalbody, budget):
+                        nxt.append((seq + bseq, conds + bconds, bdone))
+                elif isinstance(st, _a.Return):
+                    nxt.append((seq + [st], conds, True))
+                else:
+                    nxt.append((seq + [st], conds, False))
+            paths = nxt
+            if len(paths) > budget[0]:
+                raise OverflowError
+        return paths
+
+    def run_path(seq):
+        env, triplets = {}, {}
+        for st in seq:
             if isinstance(st, _a.Assign) and len(st.targets) == 1 and isinstance(st.targets[0], _a.Name):
-                w = ev(st.value, env)
                 nm = st.targets[0].id
+                tc = triplet_ctor(st.value)
+                if tc is not None:
+                    env.pop(nm, None)
+                    triplets[nm] = (st, tc[1])
+                    continue
+                w = ev(st.value, env)
+                if not (w is not None and len(w) == 1 and w[0][0] == nm):
+                    triplets.pop(nm, None)
                 if w is not None and len(w) >= 2:
                     env[nm] = w
                 elif w is not None and len(w) == 1 and w[0][0] != nm:
                     env[nm] = w                     # alias / transposed alias of another matrix
+                    if w[0][0] in triplets:
+                        triplets[nm] = triplets[w[0][0]]
                 elif w is not None and len(w) == 1:
                     if w[0][1]:
                         env[nm] = w                 # X = X.T
                 else:
-                    env.pop(nm, None)
-            elif isinstance(st, _a.If):
-                run_block(st.body)
-                run_block(st.orelse)
-            elif isinstance(st, (_a.For, _a.While, _a.With, _a.Try)):
-                run_block(getattr(st, "body", []))
-    run_block(fm.node.body)
-    rets = [n for n in _a.walk(fm.node) if isinstance(n, _a.Return) and n.value is not None]
-    ctx.instance("LUMP")
-    words = []
-    for r in rets:
-        v = r.value.elts[0] if isinstance(r.value, _a.Tuple) and r.value.elts else r.value
-        words.append(ev(v, env))
+                    env[nm] = None                  # not a matrix word
+            elif isinstance(st, _a.Return) and st.value is not None:
+                v = st.value.elts[0] if isinstance(st.value, _a.Tuple) and st.value.elts else st.value
+                tc = triplet_ctor(v)
+                if tc is not None:
+                    return None, (st, tc[1])
+                if isinstance(v, _a.Name) and v.id in env and env[v.id] is None:
+                    return None, None
+                w = ev(v, {k_: w_ for k_, w_ in env.items() if w_ is not None}) if not any(
+                    isinstance(n_, _a.Name) and n_.id in env and env[n_.id] is None for n_ in _a.walk(v)) else None
+                if w is not None and len(w) == 1 and w[0][0] in triplets and not w[0][1]:
+                    return None, triplets[w[0][0]]
+                return w, None
+        return "no-return", None
 
+    ctx.instance("LUMP")
+    try:
+        paths = linear_paths(fm.node.body)
+    except OverflowError:
+        ctx.inconclusive("LUMP", "C13.merge.product", "too many branch combinations in merge_matrix_cells", fm.where)
+        return
+    words, unknown = [], []
+    for seq, conds, done in paths:
+        w, trip = run_path(seq)
+        if w == "no-return":
+            continue
+        if trip is not None and not trip[1]:
+            ctx.violate("LUMP", "C13.merge.product", "on a path the returned matrix is built directly from (data, (rows, cols)) triplets WITHOUT a "
+                        "shape: its shape is inferred from the stored entries, so surviving cells without stored entries (isolated cells at the "
+                        "end) vanish and the matrix no longer has one row per index group (and differs from the dense result)", fm.where,
+                        norm_stmt(trip[0]), witness="path: " + (" and ".join(conds) if conds else "unconditional"))
+            return
+        if w is None:
+            unknown.append(conds)
+        else:
+            words.append(w)
     def show(w):
         return " · ".join(a_ + ("^T" if t_ else "") for a_, t_ in w)
-    if not words or any(w is None for w in words):
-        ctx.inconclusive("LUMP", "C13.merge.product", "the returned matrix is not derived as a product of matrices", fm.where)
+    if not words or unknown:
+        ctx.inconclusive("LUMP", "C13.merge.product", "the returned matrix is not derived as a product of matrices" +
+                         (" on the path " + " and ".join(unknown[0]) if unknown and unknown[0] else ""), fm.where)
         return
+    words = [w for k_, w in enumerate(words) if w not in words[:k_]]
     for w in words:
         prod = [x for x in w]
         if len(prod) == 1 and prod[0] == (M, False):
